@@ -159,7 +159,7 @@ fn plan_strategy(max_ops: usize, attach_weight: u32) -> impl Strategy<Value = Ac
             7 => Just(vec![]),
             3 => proptest::collection::vec(rewrite_strategy(), 1..3),
         ],
-        proptest::option::weighted(0.45, ("[a-z]{1,8}", 0u8..4)),
+        proptest::option::weighted(0.45, ("[a-z]{1,8}", 0u8..8)),
         proptest::collection::vec(pref_strategy(), 0..4),
         proptest::collection::vec(server_strategy(), 0..4),
         proptest::collection::vec((any::<[u8; 32]>(), "[a-z]{1,8}", any::<bool>()).prop_map(|(key, label, revoke)| DevSpec { key, label, revoke }), 0..3),
@@ -849,7 +849,26 @@ pub fn check_upgrade_server(case: &UpgradeCase) -> (CaseInfo, CheckResult) {
     (info, r)
 }
 
+/// A server account is built from the client's CreateSet, which leaves out folders flagged
+/// NO_SYNC; the server-side comparison is about synced folders, so the flag choices of the
+/// plan are folded onto the four sync-enabled ones.
+fn sync_enabled_plan(case: &UpgradeCase) -> UpgradeCase {
+    let mut c = case.clone();
+    for a in c.accounts.iter_mut() {
+        for op in a.history.ops.iter_mut() {
+            if let Op::CreateFolder { flags, .. } | Op::SetFlags { flags, .. } = op {
+                *flags %= 4;
+            }
+        }
+        if let Some((_, flags)) = a.deleted_folder.as_mut() {
+            *flags %= 4;
+        }
+    }
+    c
+}
+
 async fn run_upgrade_server(case: &UpgradeCase, info: &mut CaseInfo) -> CheckResult {
+    let case = &sync_enabled_plan(case);
     // clients live in their own dir, the server gets a separate data dir
     let client_temp = Arc::new(tempfile::Builder::new().prefix("sv-c19-cl-").tempdir().map_err(h("tempdir"))?);
     let plain = tempfile::Builder::new().prefix("sv-c19-plain-").tempdir().map_err(h("tempdir"))?;
@@ -1184,6 +1203,16 @@ async fn upgrade_sync_inner(c: &UpgradeSyncCase, info: &mut CaseInfo) -> CheckRe
     for e in &c.unsynced {
         if apply_edit(&mut w, 0, e).await? {
             applied_unsynced += 1;
+        }
+    }
+    // known C04 root cause (events addressed by hash): once a log holds one hash twice, syncs can
+    // stay diverged with or without an upgrade - excluded by construction, counted
+    {
+        let a = w.devices[0].account.lock().await;
+        let logs = all_logs(&*a).await?;
+        if logs.values().any(|l| crate::prop_c04::has_repeated_hash(l)) {
+            info.excluded.push("repeated-event-hash-within-a-log".into());
+            return Ok(());
         }
     }
     info.class(if applied_unsynced > 0 { "unsynced-state-at-upgrade" } else { "synced-state-at-upgrade" });
